@@ -155,6 +155,32 @@ def run(tier, seed):
         name, pf, pr, tg = z(seed)
         for i, a in enumerate(pf.assets):
             items.append(('zoo:%s:%s' % (name, type(a).__name__), (lambda z=z, i=i: z(seed)[1].assets[i]), (lambda z=z: z(seed)), i))
+    # the parameters every asset has (own window, discount rate) set to non-default values on every zoo asset whose class accepts them
+    def accepts(obj, kw):
+        import inspect
+        for cls in type(obj).__mro__:
+            if '__init__' not in cls.__dict__:
+                continue
+            ps = inspect.signature(cls.__init__).parameters
+            if kw in ps:
+                return True
+            if not any(p.kind in (p.VAR_KEYWORD, p.VAR_POSITIONAL) for p in ps.values()):
+                return False
+        return False
+
+    def with_general(obj):
+        if accepts(obj, 'start') and accepts(obj, 'end'):
+            obj.start, obj.end = S0 + 1 * H, S0 + 5 * H
+        if accepts(obj, 'wacc'):
+            obj.wacc = 0.25
+        return obj
+    for z in zoo.ZOO:
+        name, pf, pr, tg = z(seed)
+        if tg.freq != 'h':
+            continue
+        for i, a in enumerate(pf.assets):
+            if accepts(a, 'start') or accepts(a, 'wacc'):
+                items.append(('zoowin:%s:%s' % (name, type(a).__name__), (lambda z=z, i=i: with_general(z(seed)[1].assets[i])), None, None))
     for label, factory in param_forms(seed):
         items.append(('form:' + label, factory, None, None))
     for label, factory, zf, idx in items:
